@@ -6,6 +6,7 @@ import (
 	"errors"
 	"fmt"
 	"io"
+	"strings"
 	"unsafe"
 
 	"github.com/at-wat/mqtt-go/internal/verif/vrt"
@@ -60,8 +61,12 @@ func (n *Net) log(e WireEvent) {
 // TraceHash hashes the wire trace (for distinct-outcome counting).
 func (n *Net) TraceHash() uint64 {
 	h := uint64(1469598103934665603)
-	for _, e := range n.Trace {
-		h = h*1099511628211 ^ vrt.HashString(e.String())
+	for i := range n.Trace {
+		e := &n.Trace[i]
+		h = h*1099511628211 ^ (uint64(e.Conn+1)<<8 | uint64(e.Dir))
+		h = h*1099511628211 ^ vrt.HashBytes(e.Raw)
+		h = h*1099511628211 ^ vrt.HashString(e.Note)
+		h = h*1099511628211 ^ uint64(e.T)
 	}
 	return h
 }
@@ -74,6 +79,12 @@ func (n *Net) TraceStrings() []string {
 	}
 	return out
 }
+
+// NotSent prefixes the note of a '>' trace event whose bytes never left the client.
+const NotSent = "NOT SENT: "
+
+// Sent reports whether a '>' event was really handed to the peer side of the link.
+func (e WireEvent) Sent() bool { return e.Dir == '>' && !strings.HasPrefix(e.Note, NotSent) }
 
 // ErrLinkDown is returned by Write on a dead link.
 var ErrLinkDown = errors.New("env: write on broken link (EPIPE)")
@@ -127,7 +138,7 @@ func (c *Conn) Read(p []byte) (int, error) {
 	if len(p) > c.MaxReadReq {
 		c.MaxReadReq = len(p)
 	}
-	vrt.Await(fmt.Sprintf("Read(c%d)", c.ID), func() bool { return len(c.in) > 0 || c.eof || c.closed })
+	vrt.AwaitN("Read conn", c.ID, func() bool { return len(c.in) > 0 || c.eof || c.closed })
 	if c.closed {
 		vrt.Event(unsafe.Pointer(c), 0xC1)
 		return 0, ErrClosed
@@ -143,18 +154,22 @@ func (c *Conn) Read(p []byte) (int, error) {
 }
 
 func (c *Conn) Write(p []byte) (int, error) {
-	vrt.Yield(fmt.Sprintf("Write(c%d)", c.ID))
+	vrt.YieldN("Write conn", c.ID)
 	cp := append([]byte(nil), p...)
 	c.Attempts = append(c.Attempts, cp)
 	w := c.nwrite
 	c.nwrite++
 	vrt.Event(unsafe.Pointer(c), vrt.HashBytes(p))
-	if c.closed {
-		return 0, ErrClosed
-	}
-	if c.dead || c.eof {
-		c.Net.log(WireEvent{Conn: c.ID, Dir: '!', Note: "write on dead link fails", Raw: cp})
-		return 0, ErrLinkDown
+	if c.closed || c.dead || c.eof {
+		// a transmission attempt that cannot reach the peer; still part of the trace (C12 judges attempts)
+		note := NotSent + "write on transport closed by the client fails"
+		err := ErrClosed
+		if !c.closed {
+			note, err = NotSent+"write on dead link fails", ErrLinkDown
+		}
+		pk, _, _ := Decode(cp)
+		c.Net.log(WireEvent{Conn: c.ID, Dir: '>', Pkt: pk, Raw: cp, Note: note})
+		return 0, err
 	}
 	if c.Chunked && len(cp) > 1 {
 		h := len(cp) / 2
@@ -162,7 +177,7 @@ func (c *Conn) Write(p []byte) (int, error) {
 		if err := c.Peer.OnData(c, cp[:h]); err != nil {
 			return 0, err
 		}
-		vrt.Yield(fmt.Sprintf("Write(c%d) second chunk", c.ID))
+		vrt.YieldN("Write second chunk conn", c.ID)
 		if c.closed {
 			return h, ErrClosed
 		}
@@ -183,7 +198,7 @@ func (c *Conn) Write(p []byte) (int, error) {
 }
 
 func (c *Conn) Close() error {
-	vrt.Yield(fmt.Sprintf("Close(c%d)", c.ID))
+	vrt.YieldN("Close conn", c.ID)
 	vrt.Event(unsafe.Pointer(c), 0xC4)
 	if c.closed {
 		return nil
